@@ -766,6 +766,11 @@ func (m *MapPollard) undoDeletion(proof Proof, hashes []Hash) error {
 		proofPos = translatePositions(proofPos, TreeRows(m.NumLeaves), m.TotalRows)
 	}
 
+	// Just like Verify, ignore any proof hashes that come after the needed ones.
+	if len(proof.Proof) > len(proofPos) {
+		proof.Proof = proof.Proof[:len(proofPos)]
+	}
+
 	if len(proofPos) != len(proof.Proof) {
 		if !m.Full {
 			return fmt.Errorf("Can't undo as the passed in proof is not valid and " +
